@@ -1,34 +1,12 @@
-import ProfiVerif.Driver.Util
+import ProfiVerif.Driver.Codec
 open PV PV.Driver
 
-/-- One protocol line → one output line (stateless engines). -/
+/-- Model mode: stateless engines answer line by line. -/
 def stepLine (line : String) : String :=
-  match line.trimAscii.toString.splitOn " " with
-  | ["enc", da, sa, dsap, ssap, fc, pdu] =>
-    match parseHeader da sa dsap ssap fc, hexToBytes pdu with
-    | some h, some p =>
-      let r := h.serialize p
-      s!"{showTx r} exp={showOptU8 (expectsReplyOf h)} len={h.telegramLen p.length}"
-    | _, _ => "bad-op"
-  | ["tok", da, sa] =>
-    match u8? da, u8? sa with
-    | some d, some s => s!"ok {bytesToHex (sendToken d s)}"
-    | _, _ => "bad-op"
-  | ["sc"] => s!"ok {bytesToHex sendSc}"
-  | ["dec", hex] =>
-    match hexToBytes hex with
-    | some bs => showDecoded (deserialize bs)
-    | none => "bad-op"
-  | ["fcb", b] =>
-    match u8? b with
-    | some b =>
-      match FunctionCode.fromByte b with
-      | .ok fc => s!"ok {showFc fc} {fc.toByte.toNat}"
-      | .error .invalidRequestType => "err req"
-      | .error .invalidResponseState => "err state"
-      | .error .invalidResponseStatus => "err status"
-    | none => "bad-op"
-  | _ => "bad-op"
+  let w := splitWords line
+  match stepCodec w with
+  | some r => r
+  | none => "bad-op"
 
 partial def loop (h : IO.FS.Stream) (out : IO.FS.Stream) : IO Unit := do
   let line ← h.getLine
@@ -36,6 +14,35 @@ partial def loop (h : IO.FS.Stream) (out : IO.FS.Stream) : IO Unit := do
   out.putStrLn (stepLine line)
   loop h out
 
-def main : IO Unit := do
-  let out ← IO.getStdout
-  loop (← IO.getStdin) out
+def oracleOf (name : String) : Option (String → String → Option (String × String)) :=
+  match name with
+  | "C09" => some oracleC09
+  | _ => none
+
+def runOracle (name opsFile implFile : String) : IO UInt32 := do
+  match oracleOf name with
+  | none => IO.eprintln s!"unknown oracle {name}"; return 2
+  | some f =>
+    let ops := (← IO.FS.lines opsFile)
+    let obs := (← IO.FS.lines implFile)
+    let out ← IO.getStdout
+    let mut failed := 0
+    let mut checked := 0
+    for i in [0:ops.size] do
+      let o := obs.getD i ""
+      match f (ops.getD i "") o with
+      | none => checked := checked + 1
+      | some (cls, why) =>
+        checked := checked + 1
+        failed := failed + 1
+        if failed ≤ 200 then out.putStrLn s!"FAIL {i+1} {cls} {why}"
+    out.putStrLn s!"ORACLE checked={checked} failed={failed}"
+    return 0
+
+def main (args : List String) : IO UInt32 := do
+  match args with
+  | ["oracle", name, opsFile, implFile] => runOracle name opsFile implFile
+  | _ =>
+    let out ← IO.getStdout
+    loop (← IO.getStdin) out
+    return 0
